@@ -170,7 +170,37 @@ def request_bytes(spec):
     data = encode_as(req, enc)
     if spec.get("graft"):
         data = graft_attribute(data, spec["graft"])
+    if spec.get("graft_node"):
+        data = graft_node(data, spec["graft_node"])
     return data
+
+
+def graft_node(data, g):
+    """Insert a primitive TTLV item into the first structure with tag g['into'] (hex), right after
+    the child with tag g['after'] (hex) or at the end: for later-version fields the library's
+    own writer refuses to emit under an earlier version (TTLV surgery; lengths recomputed)."""
+    msg = R.parse_one(data)
+    target = int(g["into"], 16)
+    node = {"tag": int(g["tag"], 16), "type": g["type"], "value": g["value"]}
+    done = []
+
+    def walk(n):
+        if n["tag"] == target and n["type"] == R.STRUCTURE and not done:
+            kids = n["children"]
+            pos = len(kids)
+            if g.get("after"):
+                for i, c in enumerate(kids):
+                    if c["tag"] == int(g["after"], 16):
+                        pos = i + 1
+            kids.insert(pos, node)
+            done.append(1)
+            return
+        for c in n.get("children", []):
+            walk(c)
+    walk(msg)
+    if not done:
+        raise ValueError("graft target %s not in request" % g["into"])
+    return R.encode_node(msg)
 
 
 def graft_attribute(data, g):
@@ -1006,6 +1036,15 @@ def cases_d4():
             if hdr:
                 c["hdr"] = hdr
             out.append(c)
+    # later-version fields the library's writer gates itself: grafted into the encoded request
+    # (KMIP 2.0 Ephemeral flag of a batch item, tag 0x420154, Boolean)
+    for label, item in (("Query/ephemeral-grafted", {"op": "Query"}),
+                        ("Create/ephemeral-grafted", F.create_item()),
+                        ("Get/ephemeral-grafted", {"op": "Get", "uid": sk})):
+        for v in SUP:
+            for val in (True, False):
+                out.append({"part": "d4", "v": list(v), "label": label, "item": item,
+                            "graft_node": {"into": "42000f", "after": "42005c", "tag": "420154", "type": 6, "value": val}})
     return out
 
 
